@@ -24,6 +24,7 @@ import (
 	"strings"
 	"sync"
 	"sync/atomic"
+	"syscall"
 	"time"
 
 	"github.com/quay/claircore"
@@ -69,7 +70,15 @@ const (
 	srv500
 	srvWrongBytes
 	srvTruncated
+	srvBadType     // 200, the right bytes, a content-type the fetcher does not know
+	srvMislabelled // 200, the right (uncompressed) bytes labelled as gzip
+	srvEmpty       // 200, no body
+	srvBzip2       // 200, a body that starts like a bzip2 stream
 )
+
+func srvModeName(m int32) string {
+	return [...]string{"ok", "500", "wrong-bytes", "truncated", "unknown-content-type", "mislabelled-compression", "empty-body", "bzip2"}[m]
+}
 
 // where a stalling server stops until the harness opens the gate
 const (
@@ -163,6 +172,16 @@ func (s *server) handle(w http.ResponseWriter, r *http.Request) {
 		}
 	}
 	switch s.mode[k].Load() {
+	case srvBadType:
+		w.Header().Set("Content-Type", "text/html")
+		w.Write(l.body)
+	case srvMislabelled:
+		w.Header().Set("Content-Type", "application/gzip")
+		w.Write(l.body)
+	case srvEmpty:
+		w.WriteHeader(http.StatusOK)
+	case srvBzip2:
+		w.Write(append([]byte("BZh91AY&SY"), l.body...))
 	case srv500:
 		w.WriteHeader(http.StatusInternalServerError)
 	case srvWrongBytes:
@@ -250,6 +269,43 @@ func arenaFDKinds(dir string) string {
 		out = append(out, kind)
 	}
 	return strings.Join(out, ",")
+}
+
+// scanFDs lists the descriptors of this process that point into dir: the inode of the file
+// and whether the descriptor was opened for writing (openTemp) or read-only (Reopen).
+func scanFDs(dir string) []fdEnt {
+	ents, err := os.ReadDir("/proc/self/fd")
+	if err != nil {
+		return nil
+	}
+	var out []fdEnt
+	for _, e := range ents {
+		l, err := os.Readlink("/proc/self/fd/" + e.Name())
+		if err != nil || !(l == dir || strings.HasPrefix(l, dir+"/")) {
+			continue
+		}
+		var f fdEnt
+		if fi, err := os.Stat("/proc/self/fd/" + e.Name()); err == nil {
+			if st, ok := fi.Sys().(*syscall.Stat_t); ok {
+				f.ino = st.Ino
+			}
+			if fi.IsDir() {
+				continue // the directory itself (somebody is listing it)
+			}
+		} else {
+			continue
+		}
+		if b, err := os.ReadFile("/proc/self/fdinfo/" + e.Name()); err == nil {
+			for _, ln := range strings.Split(string(b), "\n") {
+				if strings.HasPrefix(ln, "flags:") {
+					fl, _ := strconv.ParseInt(strings.TrimSpace(strings.TrimPrefix(ln, "flags:")), 8, 64)
+					f.write = fl&3 != 0
+				}
+			}
+		}
+		out = append(out, f)
+	}
+	return out
 }
 
 func dirEntries(dir string) int {
